@@ -55,6 +55,17 @@ def run(ck, rng):
             cases.append(mk_case(op, doc, bf, exts))
             meta.append((op, modelled, doc))
     impl, crashes = run_impl(exe, cases)
+    # the massive entry points again in a process with ONE processor (GOMAXPROCS=1): must return all the same
+    one = [i for i, (op, modelled, doc) in enumerate(meta) if op.startswith("m") and len(doc) < 5000]
+    one = rng.sample(one, min(len(one), 150 if ck.tier == "quick" else 3000))
+    got1, _ = run_impl(exe, [cases[i] for i in one], env=dict(os.environ, GOMAXPROCS="1"), per_case_timeout=10.0, max_abnormal=5)
+    for i, g in zip(one, got1):
+        ck.case("GOMAXPROCS=1 " + cases[i][:300], True)
+        ck.count("one_processor")
+        if g.split("|")[-1].split(" ")[0] in ("panic", "crash", "timeout"):
+            ck.violation({"property": "C12", "kind": "no_crash", "class": "one_processor|" + meta[i][0].split(" ")[0], "case": cases[i],
+                          "input": meta[i][2][:300].decode("utf-8", "replace"), "got": g[:300],
+                          "why": "with a single processor (GOMAXPROCS=1) the call does not return normally"})
     mcases = [c[1:] if c.startswith("m") else c for c in cases]
     model = run_model(mcases)
     ck.xcheck_cases = (mcases, model)
